@@ -139,6 +139,7 @@ func runC05(c *Ctx) {
 		c.Has(r6, ol, "each testament of a scope is published under its own topic", `^store:new\(wamp\.Publish\)\.&Topic=&?local:testaments\.(detached|destroyed)\.&\[.*\]\.topic$`, 2)
 	}
 	ruleTestamentBuckets(c, r6)
+	ruleDictWrites(c, r6) // a GOODBYE marked as kill-all is private: a shared one would make later kills skip the removal
 	c.R.Floor(r6, 13)
 }
 
